@@ -35,7 +35,7 @@ ROOT_TAG = {k: k for k in KINDS}
 
 
 def server(want, slack=None, only=None):
-    k = (want, slack) if only is None else (want, slack, only)
+    k = (repr(want), slack) if only is None else (repr(want), slack, only)
     if k not in _c:
         def lst(svc):
             return [(u, b) for b, u in EP[svc].items()]
@@ -87,6 +87,9 @@ def _fields(m):
 
 DEST = ('absent', 'own', 'other-service', 'other-binding', 'foreign')
 SIG = ('none', 'valid', 'invalid', 'non-metadata-key', 'other-sp-key')
+# a signed request whose SignatureMethod names an algorithm the tool does not know; the URI ends in the tool's verdict word
+ALG_ECHO = {'alg-echo-OK': 'http://www.w3.org/2001/04/xmldsig-more#rsa-sha256-OK', 'alg-echo-sp-OK': 'urn:vp:alg OK',
+            'alg-echo-status-OK': 'urn:vp:Verification status: OK'}
 II = (0, DAY - 5, -(DAY - 5), DAY + 5, -(DAY + 5), 400 * DAY, -400 * DAY)
 DAMAGE = {
     'none': None,
@@ -147,6 +150,23 @@ def cells(thorough):
         for ii, slack in itertools.product((DAY + 5, -(DAY + 5), 400 * DAY, -400 * DAY, 0), (None, 60)):
             out.append(dict(t='table', kind='LogoutRequest', binding=binding, sig='none', want=None, dest='own', ii=ii, version='2.0', damage='none',
                             slack=slack, extra_attrs=' NotOnOrAfter="%s"' % forge.ts(env.BASE + 3600)))
+    for kind, (_fn, svc, bindings) in KINDS.items():
+        for binding in bindings:
+            if binding == REDIR:
+                continue
+            for sig, want in itertools.product(ALG_ECHO, (None, True)):
+                out.append(dict(t='table', kind=kind, binding=binding, sig=sig, want=want, dest='own', ii=0, version='2.0', damage='none', slack=None))
+    # other truthy spellings of the wish for signed requests (a number, the documented string form)
+    for kind, (_fn, svc, bindings) in KINDS.items():
+        for binding in bindings:
+            for want, sig in itertools.product((1, 'true'), ('none', 'valid', 'invalid')):
+                out.append(dict(t='table', kind=kind, binding=binding, sig=sig, want=want, dest='own', ii=0, version='2.0', damage='none', slack=None))
+    # a receiver that has been running for three days: "now" is the time of the check, not of an earlier moment
+    for kind, (_fn, svc, bindings) in KINDS.items():
+        for binding in bindings[:2]:
+            for ii, slack in itertools.product((0, DAY - 5, DAY + 5, -(DAY + 5), -3 * DAY, -3 * DAY + 600, -4 * DAY), (None, 60)):
+                out.append(dict(t='table', kind=kind, binding=binding, sig='none', want=None, dest='own', ii=ii, version='2.0', damage='none',
+                                slack=slack, late=3 * DAY))
     # schema damage below mandatory children
     for kind, dmg in (('AttributeQuery', 'subject-confirmation-without-method'), ('AuthnQuery', 'subject-confirmation-without-method'),
                       ('AuthzDecisionQuery', 'subject-confirmation-without-method'), ('LogoutRequest', 'name-id-without-text'),
@@ -187,12 +207,16 @@ DMG_EFFECTIVE = ('subject-confirmation-without-method', 'nameid-policy-bad-boole
 def build(c):
     kind, binding = c['kind'], c['binding']
     key = {'none': None, 'valid': 'spX', 'invalid': 'spX', 'non-metadata-key': 'mallory', 'other-sp-key': 'spY',
-           'non-metadata-key+keyinfo': 'mallory', 'other-sp-key+keyinfo': 'spY'}[c['sig']]
-    xml = forge.request(env.BASE, kind=kind, dest=dest_value(c['dest'], kind, binding), version=c['version'], issue_offset=c['ii'], sign=key,
+           'non-metadata-key+keyinfo': 'mallory', 'other-sp-key+keyinfo': 'spY'}.get(c['sig'], 'spX')
+    xml = forge.request(env.BASE + c.get('late', 0), kind=kind, dest=dest_value(c['dest'], kind, binding), version=c['version'], issue_offset=c['ii'], sign=key,
                         et_prefixes=(binding == SOAP), style=c.get('style', 'Z'), keyinfo=('x509:' + key) if c['sig'].endswith('+keyinfo') else None,
                         extra_attrs=c.get('extra_attrs', ''))
     if c['sig'] == 'invalid':
         xml = xml.replace('Version="2.0"', 'Version="2.0" Consent="urn:x"', 1)
+    if c['sig'] in ALG_ECHO:
+        import re
+        xml, n = re.subn(r'(SignatureMethod Algorithm=")[^"]*(")', lambda m: m.group(1) + ALG_ECHO[c['sig']] + m.group(2), xml, count=1)
+        assert n == 1
     return damage(xml, kind, c['damage'])
 
 
@@ -210,9 +234,9 @@ def must_reject(c):
     slack = c['slack'] or 0
     if abs(c['ii']) > DAY + slack + 1:
         why.append('issue-instant-outside-window')
-    if c['sig'] in ('invalid', 'non-metadata-key', 'other-sp-key', 'non-metadata-key+keyinfo', 'other-sp-key+keyinfo'):
+    if c['sig'] in ('invalid', 'non-metadata-key', 'other-sp-key', 'non-metadata-key+keyinfo', 'other-sp-key+keyinfo') or c['sig'] in ALG_ECHO:
         why.append('signature-does-not-verify-under-issuers-key')
-    if c['want'] is True and c['sig'] == 'none':
+    if c['want'] in (True, 'true') and c['want'] is not False and c['sig'] == 'none':
         why.append('unsigned-although-signed-requests-wanted')
     if c['damage'] in DMG_EFFECTIVE:
         why.append('schema-invalid:%s' % c['damage'])
@@ -227,7 +251,7 @@ def evaluate(c):
 
 
 def _evaluate(c):
-    env.Clock.set(env.BASE)
+    env.Clock.set(env.BASE + (c.get('late', 0) if c['t'] == 'table' else 0))
     if c['t'] == 'table':
         srv = server(c['want'], c['slack'], c.get('only'))
         xml = build(c)
@@ -239,13 +263,21 @@ def _evaluate(c):
         if not r['accept'] and not must_reject(c) and c['damage'] == 'none':
             # not an acceptance property; recorded only
             ok_side = r['exc']
+            if c.get('late') and abs(c['ii']) < DAY - 60:
+                # ... except as evidence that the window is not measured from the time of the check: the same request
+                # with the same age is taken at the initial clock value
+                env.Clock.set(env.BASE)
+                c0 = dict(c, late=0)
+                r0 = parse(srv, c['kind'], encode(build(c0), c['binding']), c['binding'])
+                if r0['accept']:
+                    why = ['fresh-request-refused-after-the-clock-advanced:%s' % r['exc']]
         return {'accept': r['accept'], 'exc': r.get('exc'), 'why': why, 'valid_rejected': ok_side}
     if c['t'] == 'edit':
         srv = server(None)
         kind, binding = c['kind'], c['binding']
         base = signed_start(kind, binding)
         if c.get('primed'):
-            _c.pop((None, None), None)
+            _c.pop((repr(None), None), None)
             srv = server(None)
             first = parse(srv, kind, encode(base, binding), binding)
             if not first['accept']:
@@ -255,7 +287,7 @@ def _evaluate(c):
             return {'accept': False, 'exc': 'NOOP', 'why': []}
         r = parse(srv, kind, encode(x, binding), binding)
         if c.get('primed'):
-            _c.pop((None, None), None)
+            _c.pop((repr(None), None), None)
         why = []
         if r['accept']:
             try:
@@ -270,7 +302,7 @@ def _evaluate(c):
         return {'accept': r['accept'], 'exc': r.get('exc'), 'why': why}
     if c['t'] == 'seq':
         # one fresh receiver, several signed requests in turn: each verdict must depend on that request's issuer and key only
-        _c.pop((c['want'], None), None)
+        _c.pop((repr(c['want']), None), None)
         srv = server(c['want'])
         kind, binding = c['kind'], c['binding']
         why = []
@@ -285,7 +317,7 @@ def _evaluate(c):
                 why.append('request-signed-with-another-key-accepted-at-step-%d' % n)
             if not r['accept'] and genuine:
                 why.append('genuine-signed-request-rejected-at-step-%d:%s' % (n, r.get('exc')))
-        _c.pop((c['want'], None), None)
+        _c.pop((repr(c['want']), None), None)
         return {'accept': all(t[2] for t in trace), 'exc': None, 'why': why, 'trace': trace}
     if c['t'] == 'xsw':
         from vp.checks import c01
